@@ -160,6 +160,10 @@ META_VALUES = {
     "S1": {"k": "1"},
     "AX": {"k": "A", "x": 1},
     "F": {"flag": False, "tag": "", "n": None},
+    # nested lists that are proper prefixes of one another
+    "L1": {"k": "A", "seen": [7]},
+    "L2": {"k": "A", "seen": [7, 9]},
+    "L0": {"k": "A", "seen": []},
 }
 
 
